@@ -132,6 +132,18 @@ Fixpoint first_named (name : bytes) (l : list jcookie) : option cvalue :=
   | e :: r => if beq (j_name e) name then Some (j_value e) else first_named name r
   end.
 
+(* the LAST cookie with that name: what a lookup written as "the most recent of several same-named cookies" reads. Not what the
+   code does (pkg/cookie Get = http.Request.Cookie = first); kept to state what the first-match rule is needed for
+   (Properties/C17.v c17_last_match_refuted). *)
+Fixpoint last_named (name : bytes) (l : list jcookie) : option cvalue :=
+  match l with
+  | [] => None
+  | e :: r => match last_named name r with
+              | Some v => Some v
+              | None => if beq (j_name e) name then Some (j_value e) else None
+              end
+  end.
+
 Definition jar_cookie (trust_localhost : bool) (now : Z) (u : origin) (j : jar) (name : bytes) : option cvalue :=
   first_named name (jar_select trust_localhost now u j).
 
